@@ -166,10 +166,14 @@ func runScript(conn *Conn, st *execState, d *runData, in Inp) (string, any) {
 			}
 		}
 	}
+	runMS := sc.RunMS
+	if ms, ok := sc.ByValueMS[in.V]; ok {
+		runMS = ms
+	}
 	switch kind {
 	case RunSuccess, RunErrorOut, RunCrash:
-		if sc.RunMS > 0 {
-			switch wait(sc.RunMS, true) {
+		if runMS > 0 {
+			switch wait(runMS, true) {
 			case "cancelled":
 				if sc.CancelMS > 0 {
 					wait(sc.CancelMS, false)
